@@ -383,7 +383,7 @@ PROPS["C19"] = dict(
 
 PROPS["C18"] = dict(
     modules=["common", "c18"],
-    contracts=["URL._build_url", "URL.replace", "URL.__init__[scope]", "URL.__init__[environ]"],
+    contracts=["URL._build_url", "URL.replace", "URL.__init__[scope]", "URL.__init__[environ]", "URL.__repr__"],
     refute={"quick": [2], "thorough": [1, 2, 3]},
     native="c18",
     level="other",
@@ -396,7 +396,10 @@ PROPS["C18"] = dict(
                "query and fragment are the given value or the old one, and the authority is re-assembled as "
                "[user[:password]@]host[:port] from the given-or-old user, password and port and - unless a hostname is given "
                "- the old host, i.e. the text after the LAST '@' without a trailing :port (IP literals in brackets kept whole); "
-               "IndexError only for an empty host.  URL.__init__ (the constructor from an ASGI scope and from a WSGI environ, "
+               "no IndexError for an empty host; ValueError only because the re-assembled text is parsed again (urlsplit may reject it).  "
+               "URL.__repr__ never raises, whatever the authority looks like: without a password it prints the URL text, with "
+               "one it replaces the text between the first ':' of the user information and the last '@' by the mask, without "
+               "parsing the result again.  URL.__init__ (the constructor from an ASGI scope and from a WSGI environ, "
                "_build_url through its contract): the stored text is that builder applied to exactly the request's components - "
                "scope: scheme (default http), root_path + path, query_string, server, and the FIRST b'host' header (loop with "
                "break, invariant over the header list); environ: wsgi.url_scheme, the UTF-8 reading of SCRIPT_NAME + PATH_INFO, "
@@ -454,7 +457,7 @@ PROPS["C12"] = dict(
     contracts=["parse_range", "wsgi.FileResponse.__call__", "asgi.FileResponse.__call__", "if_none_match", "if_modified_since",
                "check_path_is_file", "URL._build_url", "request.cookies", "request.content_length", "request.date",
                "wsgi.Request.json", "asgi.Request.json", "wsgi.Request.form", "asgi.Request.form",
-               "wsgi.HTTPConnection.url", "asgi.HTTPConnection.url", "MultipartDecoder.next_event[PART]"],
+               "wsgi.HTTPConnection.url", "asgi.HTTPConnection.url", "MultipartDecoder.next_event[PART]", "URL.__repr__"],
     refute={"quick": [2], "thorough": [1, 2, 3]},
     native="c12",
     level="other",
